@@ -131,7 +131,21 @@ fn frame_tokens(link: u64, f: &Frame, out: &mut L) {
         out.push(0); out.push(e.len() as u64 & 0xff); out.extend(e.iter().map(|b| *b as u64));
     }
 }
-fn packet_tokens(link: u64, p: &Packet, out: &mut L) { for f in p.to_frames().iter() { frame_tokens(link, f, out); } }
+// The generators build wire images with the implementation's own encoders.  If one of them panics (a changed tree), the case being built is
+// dropped (POISON) instead of taking the generator down; the stream's other cases still run.
+static POISON: std::sync::atomic::AtomicBool = std::sync::atomic::AtomicBool::new(false);
+fn poisoned() -> bool { POISON.swap(false, std::sync::atomic::Ordering::SeqCst) }
+fn frames_of(p: &Packet) -> Vec<Frame> {
+    let q = p.clone();
+    match catch_unwind(AssertUnwindSafe(move || q.to_frames())) { Ok(v) => v, Err(_) => { POISON.store(true, std::sync::atomic::Ordering::SeqCst); vec![] } }
+}
+fn packet_tokens(link: u64, p: &Packet, out: &mut L) {
+    for f in frames_of(p).iter() {
+        let mut t = vec![];
+        if catch_unwind(AssertUnwindSafe(|| frame_tokens(link, f, &mut t))).is_err() { POISON.store(true, std::sync::atomic::Ordering::SeqCst); return; }
+        out.extend(t);
+    }
+}
 fn wb(link: u64) -> u64 { if link == 0 { 1 } else { 256 } }
 
 // a fault prefix made of whole link frames
@@ -142,7 +156,7 @@ fn fault_prefix(r: &mut Rng, link: u64, out: &mut L) {
         let n = match r.below(5) { 0 => r.below(9) as usize, 1 => r.range(9, 30) as usize, 2 => r.range(30, 120) as usize, _ => r.range(9, 60) as usize };
         let mut p = gen_packet(r, n);
         if r.chance(2, 3) { p.device_address = dev; }
-        let mut frames: Vec<Frame> = p.to_frames();
+        let mut frames: Vec<Frame> = frames_of(&p);
         // frame-level faults
         for _ in 0..r.below(3) {
             if frames.is_empty() { break; }
@@ -197,6 +211,7 @@ fn count_tokens(link: u64, toks: &[u64]) -> u64 {
     n
 }
 fn emit_rcv(cx: &mut Ctx, link: u64, meta: &[u64], toks: &[u64]) {
+    if poisoned() { return; }
     let mut l = vec![link, meta.len() as u64]; l.extend_from_slice(meta); l.extend_from_slice(toks); cx.emit(&l);
 }
 pub fn gen_rcv(r: &mut Rng, thorough: bool, cx: &mut Ctx) {
@@ -212,8 +227,8 @@ pub fn gen_rcv(r: &mut Rng, thorough: bool, cx: &mut Ctx) {
             if r.chance(1, 3) {
                 // leave a packet of p1's device pending (same or opposite error type)
                 let qn = r.range(9, 60) as usize; let mut q = gen_packet(r, qn); q.device_address = p1.device_address; if r.coin() { q.is_error = p1.is_error; }
-                let fs = q.to_frames(); let k = r.range(1, fs.len() as u64 - 1) as usize;
-                for f in fs.iter().take(k) { frame_tokens(link, f, &mut toks); }
+                let fs = frames_of(&q);
+                if fs.len() >= 2 { let k = r.range(1, fs.len() as u64 - 1) as usize; for f in fs.iter().take(k) { frame_tokens(link, f, &mut toks); } }
             }
             let nprefix = toks.len();
             packet_tokens(link, &p1, &mut toks); packet_tokens(link, &p2, &mut toks);
@@ -428,7 +443,8 @@ pub fn exec_snd(case: &[u64]) -> L {
 }
 fn emit_snd(cx: &mut Ctx, link: u64, p: &Packet, flush: u64, ans: &[u64]) {
     let mut l = vec![link]; show_packet(p, &mut l);
-    let frames = p.to_frames();
+    let frames = frames_of(p);
+    let _ = poisoned();      // fragmentation panicked: the case goes out with no frames, and the real sender then shows what it does with this packet
     l.push(frames.len() as u64);
     for f in frames.iter() {
         if link == 0 { let mut t = vec![]; crate::s_frames::show_can_pub(&f.to_bxcan_frame(), &mut t); l.push(t.len() as u64); l.extend(t); }
